@@ -21,7 +21,7 @@ META = {
     "assumptions": ["field-wise equality: numbers as floats (nan/inf by class), sequences modulo tuple/list; non-numeric distribution descriptors compared as strings"],
     "deciding": ["roundtrip:result-json", "roundtrip:region-dict"],
 }
-META["added"] = 'Added: finalize() makes the run inconclusive when a result class is never produced, quantile pairs with nan / inf, second rebuild from the same dictionary object and from its JSON text.'
+META["added"] = 'Added: finalize() makes the run inconclusive when a result class is never produced, quantile pairs with nan / inf, second rebuild from the same dictionary object and from its JSON text. lowest magnitude edge 0.0, lattices at longitudes >= 180.'
 MANIFEST = {
     "technique": "boundary recorder on EvaluationResult.to_dict/from_dict, csep.write_json, csep.load_evaluation_result and CartesianGrid2D.to_dict/from_dict; results are produced by the library's own 19 evaluation functions on generated inputs; field-wise equality oracle; class-coverage ledger",
     "level_text": "Every result class the library can produce is obtained by actually running each of the 19 evaluation functions on generated inputs (including -inf, NaN, None and empty-distribution outcomes) and round-tripped through JSON; all documented fields must be equal and the class preserved; the ledger lists which function produced which class and a class never produced makes the run inconclusive. Unmasked Cartesian regions rebuilt from their dict must give the same cell for every probe.",
@@ -266,6 +266,8 @@ def run(ctx):
         case = gridcases.gen_case(r, max_cells=12, max_mag=4, max_events=25, rate_lo=-4, rate_hi=1, events_in_zero=(j % 5 == 0),
                                   zero_frac=0.2 if j % 5 == 0 else 0.0)
         B = (numpy.array(case["rates"]) * 10 ** r.normal(0, 0.3, numpy.array(case["rates"]).shape)).tolist()
+        if j % 3 == 2:
+            case["mag0"] = "0.0"          # lowest magnitude edge exactly 0: min_mw = 0.0 is a value, not "missing"
         ex_gridded(ctx, case, B, seed=int(r.integers(0, 1000)))
         fc = c13.gen_forecast(r, {"source": "memory", "filters": False, "spatial": False})
         if j % 4 == 1:
@@ -280,4 +282,6 @@ def run(ctx):
         case["flags"] = None
         if case["ctor"] in ("ctor",):
             case["ctor"] = "from_origins"
+        if j % 6 == 3:
+            case["ax"] = ["359.9", "179.5", "181", "-180"][(j // 6) % 4]      # lattices in the 0..360 convention / straddling the antimeridian
         ex_region(ctx, case, seed=j)
